@@ -39,6 +39,9 @@ F_ALINE = "GroFile.parse_atomline"
 F_DFMT = "GroFile.determine_format"
 F_BOX = "dump_lattice_gro+extract_lattice_gro"
 KW = dict(kind="bounded", engine="smallscope", backend="runtime-contract")
+# The empty title "" is a title ("every title"): its family lives in its own task/obligations (tag title=empty) so that it cannot mask
+# the other families.  On repo HEAD 01da268 it is a genuine finding (comment setter and _setup_write_file index value[-1]).
+EMPTY_TITLE_FAMILY = True
 
 
 # ---------------------------------------------------------------------------
@@ -82,10 +85,13 @@ def bounded_info():
             "64-record pool that covers all 64 (residue number, atom number) pairs of {0,1,7,99998,99999,100000,100001,10^7}, 16 names of "
             "1..5 non-blank characters (digit-leading included) in both name columns and every boundary coordinate/velocity that fits the "
             "width in each of the x,y,z columns; titles (7 kinds incl. unset), boxes (7: 3-vector, diagonal, triclinic, lists/numpy/ints), "
-            "writeline/writelines and box set before/after the records rotate so that every combination occurs in every task. Thorough adds "
-            "lists of 5..8 records, one 300-record file per configuration and VERIF_SEED-seeded random records (random printable names, "
+            "writeline/writelines and box set before/after the records rotate so that every one of the 196 combinations occurs in every task; "
+            "the empty title is a separate family (48 files). Thorough adds lists of 5..8 records, three 300-record files per configuration "
+            "(one per record form) and 10000 VERIF_SEED-seeded random record lists of 1..8 records per configuration (random printable names, "
             "numbers in [0,10^7], coordinates over the whole representable range and at rounding boundaries). Function-level contracts "
-            "(parse_atomlist, determine_format, parse_atomline, dump/extract_lattice_gro) are evaluated on every pool record / box. "
+            "(parse_atomlist against this module's fixed-column reading, determine_format, parse_atomline against the same reading of the line "
+            "it is given, dump/extract_lattice_gro) are evaluated on every pool record (thorough: + 20000 random records per format) and on "
+            "152 boxes (thorough: + 20000 random). The quick tier does not depend on the seed. "
             "Nothing here is a proof: every obligation is kind=bounded."),
         "rule": ("one evaluation = one complete write session + independent reading of the bytes + read session (file level), or one "
                  "record/box through the class/module function (function level); distinct = distinct (configuration, record list) key; "
@@ -806,7 +812,7 @@ def _big_and_random(prop, fmt, vel, count, seed, tmp, pool):
     # seeded random record lists of 1..8 records
     t0 = time.time()
     agg = Agg(FILE_CLAUSES)
-    N = int(os.environ.get("VERIF_B13_RANDOM", "6000"))
+    N = int(os.environ.get("VERIF_B13_RANDOM", "10000"))
     for j in range(N):
         n = 1 + (j % 8)
         recs = [rnd_record(rng, fmt, vel, C, V) for _ in range(n)]
@@ -1213,7 +1219,8 @@ def bounded_tasks(prop, tier, seed):
     for fmt in FORMATS:
         t.append((f"b13/record/fmt={fmt_tag(fmt)}", task_records, (prop, fmt, tier, seed), lim))
     t.append(("b13/box", task_boxes, (prop, tier, seed), lim))
-    t.append(("b13/title-empty", task_title_empty, (prop, tier, seed), lim))
+    if EMPTY_TITLE_FAMILY:
+        t.append(("b13/title-empty", task_title_empty, (prop, tier, seed), lim))
     t.append(("b13/guards", task_guards, (prop, seed), lim))
     return t
 
